@@ -140,8 +140,11 @@ theorem table_length : dateTable.length = 36525 := dateTable_length
 
 /-- `table[yyyy-2000][mm-1][dd-1]` is the entry of that date -/
 theorem table_by_date (i : Nat) (h : i < 36525) :
+    2000 ≤ (civil (10957 + i)).y ∧ (civil (10957 + i)).y ≤ 2099 ∧
+    1 ≤ (civil (10957 + i)).m ∧ 1 ≤ (civil (10957 + i)).d ∧
     lookup3 table3 ((civil (10957 + i)).y - 2000) ((civil (10957 + i)).m - 1) ((civil (10957 + i)).d - 1)
-      = some (specDay i) := table3_get i h
+      = some (specDay i) :=
+  ⟨(specDay_year i h).1, (specDay_year i h).2, (civil_fields _).1, (civil_fields _).2.2.1, table3_get i h⟩
 
 /-- **weekday_ok**: the weekday index stored for day `i` is the calendar weekday, which is
     `(i + 5) mod 7` counted from Saturday 2000-01-01 (index 5; 0 = Monday).
@@ -177,9 +180,16 @@ theorem fmt_yyyymmdd (t : Int) (h : InCentury t) : yyyymmdd t = some (specYmd (c
   yyyymmdd_eq t h
 
 theorem fmt_weekday (t : Int) (h : InCentury t) :
-    weekdayIdx t = some (weekdayMon (dayOf t)) ∧
-    weekday t = some (["Mon", "Tue", "Wed", "Thr", "Fri", "Sat", "Sun"].getD (weekdayMon (dayOf t)) "") :=
-  ⟨weekdayIdx_eq t h, weekday_eq t h⟩
+    weekdayIdx t = some (weekdayMon (dayOf t)) ∧ weekdayMon (dayOf t) < 7 ∧
+    weekday t = some (["Mon", "Tue", "Wed", "Thr", "Fri", "Sat", "Sun"].getD (weekdayMon (dayOf t)) "") ∧
+    (∀ l, weekday t = some l → l ∈ ["Mon", "Tue", "Wed", "Thr", "Fri", "Sat", "Sun"]) := by
+  have hlt : weekdayMon (dayOf t) < 7 := by simp only [weekdayMon]; omega
+  refine ⟨weekdayIdx_eq t h, hlt, weekday_eq t h, ?_⟩
+  intro l hl
+  rw [weekday_eq t h] at hl
+  have : ∀ k, k < 7 → wdayLabels.getD k "" ∈ ["Mon", "Tue", "Wed", "Thr", "Fri", "Sat", "Sun"] := by decide
+  cases hl
+  exact this _ hlt
 
 theorem fmt_datetime (t : Int) (h : InCentury t) :
     datetime t = some (specYmd (civil (dayOf t)) ++ ' ' :: render2 (specHMS (msOfDay t)).hh ++ ':' ::
@@ -255,7 +265,10 @@ theorem ymd_inverse (t : Int) (h : InCentury t) :
   their least values instead of the clock (`format_parse_if_origin`); and a witness that the
   full statement fails (`finding_D41`). -/
 
-/-- present fields come back from the text, absent ones are read from the clock -/
+/-- present fields come back from the text, absent ones are read from the clock.
+    (Audit note: `dateToMs` works on naturals, so for a clock whose year is below 1970 its truncated
+    subtraction would not be Go's arithmetic; the integer model `parseObj`/`dateToMsZ` has no such
+    region — `obj_format_parse` is the statement without it, `obj_fresh` the bridge for calendar fields.) -/
 theorem format_parse_now (pat : List Char) (now : Fields) (t : Nat) (h : t < 2900000 * MS_DAY) :
     parse pat now (format pat (fieldsOf t)) = some (dateToMs (merge pat (fieldsOf t) now)) :=
   parse_format pat now t h
@@ -415,6 +428,10 @@ example : ∀ c ∈ ['y', 'm', 'd', 'H', 'M', 'S', 's'], c ∈ "y-m-d H:M:S.s".t
 example : format "y-m-d H:M:S.s".toList (fieldsOf 1709210096789) = "2024-02-29 12:34:56.789".toList := by
   decide +kernel
 example : hmsOf 45296789 = ⟨12, 34, 56, 789⟩ := by decide
+example : parseHistory "ymdHMSs".toList {} ([(fieldsOf 1790642034141, 1709210096789), (Fields.origin, 946684800005)].map
+    fun c => (c.1, format "ymdHMSs".toList (fieldsOf c.2))) = [some 1709210096789, some 946684800005] := by decide +kernel
+example : ∀ c ∈ [(fieldsOf 1790642034141, (1709210096789 : Nat))], 365 * MS_DAY ≤ c.2 ∧ c.2 < 2900000 * MS_DAY := by decide +kernel
+example : (Call.hhmm 5).isSetter = false ∧ pureAns (.hhmm 946684800000) = some (.str (some "0000".toList)) := by decide +kernel
 example : gregorian 59 = ⟨1970, 3, 1⟩ ∧ weekdayIter 4 = 0 := by decide +kernel
 example : formatIn 20700000 "y-m-d H:M:S.s".toList 1709210096789 = "2024-02-29 18:19:56.789".toList := by decide +kernel
 example : run ⟨0⟩ [(1000, .setDelta 946684799000), (1005, .now), (2000, .hhmm 946684800000)] =
